@@ -1160,8 +1160,8 @@ impl World for StoreWorld {
         if storm {
             ops.clear();
             ops.push(Op::Put(0, Val::Int(1)));
-            for i in 0..13 {
-                if i % 4 == 3 {
+            for i in 0..16 {
+                if i % 6 == 5 {
                     ops.push(Op::Put(rng.usize(3), Val::Int(i as i64)));
                 } else {
                     ops.push(Op::Checkpoint(None));
@@ -1174,6 +1174,19 @@ impl World for StoreWorld {
         let sweep_op = if sweep { Some(*rng.pick(&ck)) } else { None };
         let default_ttl = if !storm && rng.chance(1, 6) { Some(*rng.pick(&[1u64, 2, 5, 50])) } else { None };
         let max_checkpoints = if storm { *rng.pick(&[2usize, 3, 10]) } else { max_checkpoints };
+        // one run in eight: the same history with TTLs and clock movements in seconds instead of ms
+        let slow = !storm && rng.chance(1, 8);
+        let default_ttl = if slow { default_ttl.map(|d| d * 1000) } else { default_ttl };
+        if slow {
+            for o in ops.iter_mut() {
+                match o {
+                    Op::PutTtl(_, _, ttl) => *ttl *= 1000,
+                    Op::Advance(d) if *d < 1000 => *d *= 1000,
+                    Op::StepBack(d) => *d *= 1000,
+                    _ => {}
+                }
+            }
+        }
         if storm {
             return StoreTrace { hash_seed, max_checkpoints, default_ttl, ops, tick_pattern, sweep_op: None };
         }
